@@ -32,6 +32,8 @@ type Case struct {
 	A       int    `json:"a"`  // window offset (frames) inside the roots
 	Spare   int    `json:"spare"`
 	L       int    `json:"l,omitempty"`
+	P1      int    `json:"p1,omitempty"`      // conv/append: extra samples appended to the first operand (a partial last frame), < C1
+	P2      int    `json:"p2,omitempty"`      // conv/append: same for the second operand, < C2
 	PutKind string `json:"putKind,omitempty"` // otherK | otherC | laterFrame | grown
 	PrePut  bool   `json:"prePut,omitempty"`
 }
@@ -89,10 +91,16 @@ type operand struct {
 	rh, wh    kit.Hdr
 }
 
-func mkOperand(name string, C, a, frames, spare int) *operand {
+func mkOperand(name string, C, a, frames, spare, partial int) *operand {
 	o := &operand{}
+	if partial > 0 && spare == 0 {
+		spare = 1
+	}
 	o.root = kit.AnyRoot(name, C, a+frames+spare)
 	o.win = o.root.Slice(a, a+frames)
+	for k := 0; k < partial; k++ {
+		o.win.AppendSample(kit.IV(kit.PartialVal(k)))
+	}
 	o.model = o.root.Snap()
 	o.rh, o.wh = o.root.Hdr(), o.win.Hdr()
 	return o
@@ -118,8 +126,11 @@ func Check(c *Case) (res kit.Result) {
 		if e == nil || c.C2 < 1 || c.C2 > 16 || c.C2 == c.C1 {
 			return
 		}
-		src := mkOperand(c.S, c.C1, c.A, c.F1, c.Spare)
-		dst := mkOperand(c.D, c.C2, c.A, c.F2, c.Spare)
+		if c.P1 < 0 || c.P1 >= c.C1 || c.P2 < 0 || c.P2 >= c.C2 {
+			return
+		}
+		src := mkOperand(c.S, c.C1, c.A, c.F1, c.Spare, c.P1)
+		dst := mkOperand(c.D, c.C2, c.A, c.F2, c.Spare, c.P2)
 		panicked, _ := kit.Try(func() { e.Convert(src.win, dst.win) })
 		what := fmt.Sprintf("%s with %d-channel source (%d frames) and %d-channel destination (%d frames)", e, c.C1, c.F1, c.C2, c.F2)
 		if !panicked {
@@ -139,8 +150,14 @@ func Check(c *Case) (res kit.Result) {
 		if c.C2 < 1 || c.C2 > 16 || c.C2 == c.C1 {
 			return
 		}
-		dst := mkOperand(c.S, c.C1, c.A, c.F1, c.Spare)
-		src := mkOperand(c.S, c.C2, c.A, c.F2, c.Spare)
+		if c.P1 < 0 || c.P1 >= c.C1 || c.P2 < 0 || c.P2 >= c.C2 {
+			return
+		}
+		dst := mkOperand(c.S, c.C1, c.A, c.F1, c.Spare, c.P1)
+		src := mkOperand(c.S, c.C2, c.A, c.F2, c.Spare, c.P2)
+		if c.P1 > 0 || c.P2 > 0 {
+			res.Class("partialLastFrame")
+		}
 		panicked, _ := kit.Try(func() { dst.win.Append(src.win) })
 		what := fmt.Sprintf("Append of a %d-channel source (%d frames) to a %d-channel destination (%d frames, %d spare)", c.C2, c.F2, c.C1, c.F1, c.Spare)
 		if !panicked {
@@ -321,7 +338,7 @@ func FP(c *Case) uint64 {
 	if c.PrePut {
 		b = 1
 	}
-	h.Ints([]int{c.C1, c.C2, c.N, c.F1, c.F2, c.A, c.Spare, c.L, b})
+	h.Ints([]int{c.C1, c.C2, c.N, c.F1, c.F2, c.A, c.Spare, c.L, b, c.P1, c.P2})
 	return h.Sum()
 }
 
@@ -345,9 +362,17 @@ func Gen(t *rapid.T) *Case {
 		e := convtab.Entries[rapid.IntRange(0, len(convtab.Entries)-1).Draw(t, "inst")]
 		c.S, c.D = e.S.Name, e.D.Name
 		c.C2 = other("c2", 1, 8, c.C1)
+		if rapid.Bool().Draw(t, "partial") {
+			c.P1 = rapid.IntRange(0, c.C1-1).Draw(t, "p1")
+			c.P2 = rapid.IntRange(0, c.C2-1).Draw(t, "p2")
+		}
 	case "append":
 		c.S = rapid.SampledFrom(names).Draw(t, "type")
 		c.C2 = other("c2", 1, 8, c.C1)
+		if rapid.Bool().Draw(t, "partial") {
+			c.P1 = rapid.IntRange(0, c.C1-1).Draw(t, "p1")
+			c.P2 = rapid.IntRange(0, c.C2-1).Draw(t, "p2")
+		}
 	case "readStriped", "writeStriped":
 		c.S = rapid.SampledFrom(names).Draw(t, "s")
 		c.D = rapid.SampledFrom(names).Draw(t, "d")
